@@ -2,26 +2,26 @@
 
 use proptest::prelude::*;
 
-use crate::aio::{IoFault, RunEnd};
+use crate::aio::IoFault;
 use crate::conn::{self, Built, ConnCase, ConnModel, RunResult};
 use crate::engine::*;
 use crate::model;
 use crate::wire;
 use crate::{vensure, vfail};
 
-/// Invariant (1): whenever the reader had to park (the task is about to be suspended waiting for
-/// client input), the replies owed for all complete records handed out so far are on the log.
+/// Invariant (1): whenever the task is suspended waiting for client input, the replies owed for
+/// all complete records handed out so far are on the log.
 pub fn check_parks(b: &Built, m: &ConnModel, r: &RunResult) -> Result<usize, Fail> {
     let w = r.world.lock().unwrap();
     let mut checked = 0;
     let mut last = (usize::MAX, usize::MAX);
-    for (pi, &(log_len, read_pos)) in w.parks.iter().enumerate() {
+    // A suspension point is the end of a task poll that returned Pending after a read found
+    // nothing (and no write was refused since): only then is the task "suspended waiting for
+    // further input". A read that finds nothing in the middle of a poll which goes on to process
+    // and answer what it already has (a speculative read-ahead), or in the poll in which the task
+    // finishes (a lingering-close drain), is not one.
+    for &(log_len, read_pos) in w.suspensions.iter() {
         if (log_len, read_pos) == last {
-            continue;
-        }
-        // A read that found nothing in the very poll in which the task *finished* is not a
-        // suspension: the task did not wait (e.g. a lingering-close drain that stops at Pending).
-        if r.end == RunEnd::Finished && w.park_polls.get(pi).copied() == Some(r.steps.saturating_sub(1)) {
             continue;
         }
         last = (log_len, read_pos);
@@ -72,7 +72,7 @@ fn test(c: &ConnCase) -> TestResult {
     let with_neighbours = b.queries.iter().any(|&q| q > 0 || b.recs.len() > 1);
     vensure!(v.served >= 1, "harness-inconsistent", "nothing served");
     if std::env::var_os("VERIF_DEBUG").is_some() {
-        eprintln!("waited={waited} mid_body={mid_body} with_neighbours={with_neighbours} parks={parks} raw parks={:?}", w.parks);
+        eprintln!("waited={waited} mid_body={mid_body} with_neighbours={with_neighbours} parks={parks} raw parks={:?}", w.suspensions);
     }
     Ok(Outcome::new(waited && (mid_body || with_neighbours) && parks >= 1)
         .label_if(mid_body, "query-inside-body")
